@@ -369,6 +369,26 @@ func c17r6(r *R) {
 		}
 		j := strings.Join(names, ",")
 		o2.Check(strings.Contains(j, "2") && strings.Contains(j, "15"), "NotifyContext listens for signals %s, want SIGINT(2) and SIGTERM(15)", j)
+		// the registration stays in force for the whole shutdown: its stop function is dropped or deferred to Run's
+		// exit, never called or scheduled earlier (after the first signal a second one would otherwise kill the
+		// process in the middle of the drain)
+		if tup, ok := s.(ssa.Value); ok && tup.Referrers() != nil {
+			for _, ref := range *tup.Referrers() {
+				ex, isEx := ref.(*ssa.Extract)
+				if !isEx || ex.Index != 1 || ex.Referrers() == nil {
+					continue
+				}
+				for _, u := range *ex.Referrers() {
+					switch x := u.(type) {
+					case *ssa.Defer:
+						o2.AtI(u).Check(x.Call.Value == ssa.Value(ex), "the signal registration's stop function is passed to a deferred call")
+					case *ssa.DebugRef:
+					default:
+						o2.AtI(u).Fail("the signal registration's stop function is used before Run returns (%s): once it runs, SIGINT/SIGTERM regain their default action and a repeated signal terminates the process during the graceful shutdown", shortInstr(u))
+					}
+				}
+			}
+		}
 	}
 	o2.Check(found, "Run does not derive its context from signal.NotifyContext")
 	for _, s := range callsIn(run, "fingerproxy.defaultProxyServer") {
